@@ -69,6 +69,7 @@ def policy (struct_ field : String) : Policy :=
   | "limitedResponseWriter" => .confined
   | "responseWriter" => .confined
   | "statusRecorder" => .confined
+  | "idHeaderWriter" => .confined
   | _ => .immutable
 
 /-- rank of every lock class: a lock may be taken only while holding locks of lower rank -/
